@@ -27,6 +27,7 @@ import YataProofs.Indicators.RSIRun
 import YataProofs.Indicators.BBRun
 import YataProofs.Indicators.KeltnerRun
 import YataProofs.Indicators.CMORun
+import YataProofs.Indicators.AroonRun
 import YataProofs.Numeric.TSIRange
 import YataProofs.Numeric.MeanAbsDev
 namespace Yata.C12
@@ -214,6 +215,12 @@ theorem C12_cmo_run {P : Nat} (c : CMOCfg) (k0 : Candle ℚ) (s0 : CMO) (h0 : CM
     ∃ outs s', runM CMO.vals s0 cs = .ok (outs, s') ∧ outs.length = cs.length ∧
       ∀ i (hi : i < outs.length), ∃ v, outs[i] = [v] ∧ -1 ≤ v.value ∧ v.value ≤ 1 := CMO.run_range c k0 s0 h0 cs
 
+/-- Aroon over whole candle streams, from its constructor: no step panics, both values in [0, 1] at every step -/
+theorem C12_aroon_run {P : Nat} (c : AroonCfg) (k0 : Candle ℚ) (hv : Aroon.validate P c = true) (cs : List (Candle ℚ)) :
+    ∃ s0 outs s', Aroon.init P c k0 = .ok s0 ∧ runM (Aroon.valsR P) s0 cs = .ok (outs, s') ∧ outs.length = cs.length ∧
+      ∀ i (hi : i < outs.length), ∃ up dn, (outs[i]).map VExp.value = [up, dn] ∧ 0 ≤ up ∧ up ≤ 1 ∧ 0 ≤ dn ∧ dn ≤ 1 :=
+  Aroon.run_range c k0 hv cs
+
 theorem C12_tr_nonneg (c : Candle ℚ) (p : ℚ) (h : c.low ≤ c.high) : 0 ≤ c.trClose p := tr_nonneg c p h
 
 theorem C12_clv_range (c : Candle ℚ) (h1 : c.low ≤ c.close) (h2 : c.close ≤ c.high) : -1 ≤ c.clv ∧ c.clv ≤ 1 :=
@@ -256,3 +263,4 @@ end Yata.C12
 #print axioms Yata.C12.C12_bollinger_run
 #print axioms Yata.C12.C12_keltner_run
 #print axioms Yata.C12.C12_cmo_run
+#print axioms Yata.C12.C12_aroon_run
